@@ -388,9 +388,15 @@ pub fn memo_ctor(acc: Option<usize>, id: usize) -> u8 {
     acc.map(|n| ((n + id) % 3) as u8).unwrap_or(0)
 }
 
-/// signal `id` is created by `signal()` / `arc_signal()` (split pair) instead of `RwSignal::new`
+/// signal `id` is created by `signal()` / `arc_signal()` (split `ReadSignal` / `WriteSignal` pair) instead of
+/// `RwSignal::new`: per case none / all / the even ids / the odd ids
 pub fn sig_split(acc: Option<usize>, id: usize) -> bool {
-    acc.map(|n| (n / 3 + id) % 2 == 1).unwrap_or(false)
+    match acc.map(|n| n / 3 % 4) {
+        None | Some(0) => false,
+        Some(1) => true,
+        Some(2) => id % 2 == 0,
+        _ => id % 2 == 1,
+    }
 }
 
 fn ne(a: Option<&i64>, b: Option<&i64>) -> bool {
